@@ -243,11 +243,11 @@ struct RegpHarness : Harness {
     std::vector<std::string> probes(const std::string &p) const override {
         std::vector<std::string> v;
         if (p == "C06") { for (int k = 0; k < 12; ++k) { v.push_back("verdict_read_" + std::to_string(k)); v.push_back("verdict_write_" + std::to_string(k)); }
-            for (const char *s : {"pipelined_3_or_more", "sequence_wrap", "word_size_mismatch", "response_ignored", "meta_ignored", "mem8", "mem16", "serial", "tcp", "zero_block_size", "request_from_real_client", "register_table_verdict_mapped", "reception_failure_inside_session", "block_recycled_with_stale_content", "reply_received_and_ignored_by_client", "read_at_or_near_capacity"}) v.push_back(s); }
-        else if (p == "C07") for (const char *s : {"flip1", "flip2", "burst", "truncate", "extend", "header_word_flip", "class_header_encoding", "class_header_crc", "class_payload_size", "class_payload_crc", "raw_accept", "raw_tcp", "option_plcrc_without_hdcrc", "odd_payload_ws16", "payload_fault_answered_with_error_response", "classified_from_fallback_buffer"}) v.push_back(s);
-        else if (p == "C08") { for (const char *s : {"req_read8", "req_read16", "req_write8", "req_write16", "resp_ack_payload", "resp_ack_empty", "resp_meta", "payload_with_slip_control_octets", "varint_prefix_2_octets", "sequence_wrap", "roundtrip_accepted"}) v.push_back(s);
+            for (const char *s : {"read_of_64k_octets_or_more", "pipelined_3_or_more", "sequence_wrap", "word_size_mismatch", "response_ignored", "meta_ignored", "mem8", "mem16", "serial", "tcp", "zero_block_size", "request_from_real_client", "register_table_verdict_mapped", "reception_failure_inside_session", "block_recycled_with_stale_content", "reply_received_and_ignored_by_client", "read_at_or_near_capacity"}) v.push_back(s); }
+        else if (p == "C07") for (const char *s : {"frame_of_64k_octets_or_more", "damage_beyond_64k_words", "flip1", "flip2", "burst", "truncate", "extend", "header_word_flip", "class_header_encoding", "class_header_crc", "class_payload_size", "class_payload_crc", "raw_accept", "raw_tcp", "option_plcrc_without_hdcrc", "odd_payload_ws16", "payload_fault_answered_with_error_response", "classified_from_fallback_buffer"}) v.push_back(s);
+        else if (p == "C08") { for (const char *s : {"payload_of_64k_octets_or_more", "req_read8", "req_read16", "req_write8", "req_write16", "resp_ack_payload", "resp_ack_empty", "resp_meta", "payload_with_slip_control_octets", "varint_prefix_2_octets", "sequence_wrap", "roundtrip_accepted"}) v.push_back(s);
             for (int k = 1; k < 12; ++k) v.push_back("resp_code_" + std::to_string(k)); }
-        else for (const char *s : {"alloc_failure_with_parsable_header", "alloc_failure_without_parsable_header", "empty_frame", "short_frame", "frame_len_room_minus_1", "frame_len_room", "frame_len_room_plus_1", "rx_overflow", "read_at_limit_minus_1", "read_at_limit", "read_at_limit_plus_1", "tx_overflow", "channel_error_mid_frame", "odd_payload_ws16", "slab_allocator", "block_size_minimum", "served_after_fault", "illegal_slip_sequence_on_the_wire"}) v.push_back(s);
+        else for (const char *s : {"frame_of_64k_octets_or_more", "alloc_failure_with_parsable_header", "alloc_failure_without_parsable_header", "empty_frame", "short_frame", "frame_len_room_minus_1", "frame_len_room", "frame_len_room_plus_1", "rx_overflow", "read_at_limit_minus_1", "read_at_limit", "read_at_limit_plus_1", "tx_overflow", "channel_error_mid_frame", "odd_payload_ws16", "slab_allocator", "block_size_minimum", "served_after_fault", "illegal_slip_sequence_on_the_wire"}) v.push_back(s);
         return v;
     }
     Json describe(const std::string &p) const override {
@@ -295,6 +295,8 @@ struct RegpHarness : Harness {
         if (n >= 3 && r.chance(1, 10)) { Bytes b = gen_payload_plain(r, n - 2); uint16_t c = crc16arc(b.data(), b.size()); b.push_back((uint8_t)c); b.push_back((uint8_t)(c >> 8)); return b; }
         return gen_payload_plain(r, n);
     }
+    // payloads too large to be spelled out in a plan are regenerated from a seed (every octet value occurs, SLIP control octets included)
+    static Bytes seeded_payload(uint64_t seed, size_t n) { Bytes b(n); uint64_t st = seed * 0x9e3779b97f4a7c15ULL + 0x1234567; for (size_t i = 0; i < n; i += 8) { uint64_t v = splitmix64(st); for (size_t q = 0; q < 8 && i + q < n; ++q) b[i + q] = (uint8_t)(v >> (8 * q)); } return b; }
     static Bytes gen_payload_plain(Rng &r, size_t n) { Bytes b(n); for (auto &x : b) { switch (r.below(6)) { case 0: x = 0xc0; break; case 1: x = 0xdb; break; case 2: x = 0xdc; break; case 3: x = 0xdd; break; default: x = (uint8_t)r.below(256); } } return b; }
     // a conformant frame for the transport
     static Frame gen_valid(Rng &r, bool serial, int type, bool ws16, size_t maxwords) {
@@ -322,6 +324,8 @@ struct RegpHarness : Harness {
         int64_t block = 128;
         if (prop == "C09" || r.chance(1, 3)) { switch (r.below(5)) { case 0: block = (int64_t)minblock + r.range(0, 3); break; case 1: block = (int64_t)minblock + r.range(12, 40); break; case 2: block = r.range(100, 200); break; case 3: block = t.thorough() ? r.range(200, 20000) : r.range(200, 600); break; default: block = 128; } }
         if (prop == "C06" && block < (int64_t)minblock + 40) block = (int64_t)minblock + 40 + r.range(0, 60);
+        const bool bigblock = (prop == "C09" || prop == "C06") && r.chance(1, 150);   // rarely a block around / above 64 KiB (sizes and counts that do not fit 16 bits)
+        if (bigblock) { static const int64_t BB[] = {65535, 65536, 65537, 65552, 70000, 131072, 131080, 196700}; block = (int64_t)sizeof(RPFrame) + BB[r.below(8)]; }
         p["block"] = (long long)block;
         const size_t room = (size_t)block - sizeof(RPFrame);
         p["seq0"] = (long long)(r.chance(1, 3) ? 0xfff0 + r.below(16) : r.below(65536));
@@ -356,6 +360,13 @@ struct RegpHarness : Harness {
             // one plan in 40 carries a frame for the (expensive) corruption catalogue, the others feed the differential family
             bool cat = serial && r.chance(1, 40);
             int n = cat ? 1 : (int)r.range(3, 8);
+            if (!cat && r.chance(1, 30)) {   // a frame of 64 KiB and more (payload regenerated from a seed), intact or with one bit damaged somewhere in the payload
+                static const int64_t W[] = {65536, 65535, 65537, 65544, 32768, 70000, 131072, 131073};
+                Json o = Json::obj(); o["k"] = "big"; o["type"] = r.chance(1, 2) ? T_WREQ : T_RRESP; o["ws16"] = r.chance(2, 3); o["units"] = (long long)W[r.below(8)];
+                o["seed"] = (long long)r.below(1 << 30); o["plcrc"] = r.chance(3, 4);
+                if (r.chance(2, 3)) { o["flipat"] = (long long)r.below(1 << 30); o["flipbit"] = (long long)r.below(8); }
+                ops.push(o); n = (int)r.range(0, 2);
+            }
             for (int i = 0; i < n; ++i) {
                 Json o = Json::obj();
                 bool raw = !cat;
@@ -397,6 +408,11 @@ struct RegpHarness : Harness {
                 o["n"] = (long long)n2;
                 size_t ws = (e == "req_write16" || ((e == "ack") && mt == 16)) ? 2 : 1;
                 if (e == "req_write8" || e == "req_write16" || e == "ack") o["pl"] = hexs(gen_payload(r, n2 * ws));
+                if ((e == "req_write8" || e == "req_write16" || e == "ack") && r.chance(1, 250)) {   // 64 KiB of payload and more: regenerated from a seed
+                    static const int64_t OCT[] = {65536, 65534, 65538, 65540, 70000, 131072, 131074, 196608};
+                    Json bp = Json::arr(); bp.push((long long)OCT[r.below(8)]); bp.push((long long)r.below(1 << 30)); o["bigpl"] = bp; o["pl"] = "";
+                    if (e == "ack") o["ftype"] = T_RREQ;
+                }
                 if (e == "req_read8" || e == "req_read16") o["n"] = (long long)(r.chance(1, 4) ? r.below(0x100000000ull) : n2);
                 o["code"] = (long long)(1 + r.below(11)); o["arg"] = (long long)(r.chance(1, 3) ? 0xc0dbdcddull : r.below(0x100000000ull));
                 o["ftype"] = r.chance(1, 2) ? T_RREQ : T_WREQ; o["fseq"] = (long long)r.below(65536);
@@ -415,6 +431,15 @@ struct RegpHarness : Harness {
                     Bytes w = gen_payload_plain(r, (size_t)r.range(1, 24));
                     if (r.chance(1, 2)) { Bytes v = slip(encode(gen_valid(r, serial, T_WREQ, ws16, 4))); size_t at = r.below(v.size()); v.insert(v.begin() + (long)at, w.begin(), w.end()); w = v; }
                     o["k"] = "wire"; o["raw"] = hexs(w); o["verdict"] = (long long)r.below(12); o["salt"] = (long long)r.below(100000);
+                    ops.push(o); continue;
+                }
+                if (bigblock && r.chance(2, 3)) {   // frames around the room of a big block: fitting exactly, one too long, far too long; valid big writes
+                    Frame f = gen_valid(r, serial, r.chance(1, 4) ? T_RRESP : T_WREQ, ws16, 0); f.meta = 0; f.payload.clear();
+                    size_t hl = 12 + (serial ? 4 : 0);
+                    int64_t pl = (int64_t)room - (int64_t)hl + (r.chance(1, 2) ? r.range(-3, 3) : -r.range(0, 70000)); if (pl < 0) pl = 0;
+                    Json bp = Json::arr(); bp.push((long long)pl); bp.push((long long)r.below(1 << 30)); bp.push((long long)(r.chance(1, 4) ? r.range(1, 40) : 0));
+                    o["bigf"] = frame_json(f); o["bigpl"] = bp; o["raw"] = "";
+                    o["verdict"] = (long long)(r.chance(2, 3) ? 0 : r.below(12)); o["salt"] = (long long)r.below(100000);
                     ops.push(o); continue;
                 }
                 switch (r.below(10)) {
@@ -444,7 +469,7 @@ struct RegpHarness : Harness {
     struct Cfg { bool serial; int mt; size_t block; bool slab, so, ko; uint16_t seq0; bool recycle; unsigned confhist; };
     static Cfg cfg_of(const Json &plan) {
         Cfg c; c.serial = plan.geti("serial") != 0; c.mt = plan.geti("mt", 16) == 8 ? 8 : 16;
-        int64_t b = plan.geti("block", 128); if (b < (int64_t)sizeof(RPFrame) + 1) b = (int64_t)sizeof(RPFrame) + 1; if (b > 70000) b = 70000; c.block = (size_t)b;
+        int64_t b = plan.geti("block", 128); if (b < (int64_t)sizeof(RPFrame) + 1) b = (int64_t)sizeof(RPFrame) + 1; if (b > 400000) b = 400000; c.block = (size_t)b;
         c.slab = plan.geti("slab") != 0; c.so = plan.geti("src_octet") != 0; c.ko = plan.geti("snk_octet") != 0; c.seq0 = (uint16_t)plan.geti("seq0"); c.recycle = plan.geti("recycle") != 0; c.confhist = (unsigned)(plan.geti("confhist") & 15);
         return c;
     }
@@ -617,6 +642,7 @@ struct RegpHarness : Harness {
                 const size_t cap = (room > hdr ? room - hdr : 0) / ws;
                 if (f.type == T_RREQ && f.bsize > cap) f.bsize = (uint32_t)(cap - (cap ? (size_t)o.geti("salt") % (cap < 4 ? cap + 1 : 4) : 0));
                 if (f.type == T_RREQ && f.bsize + 3 >= cap) COUNT("probe.read_at_or_near_capacity");
+                if (f.type == T_RREQ && (uint64_t)f.bsize * ws >= 65536) COUNT("probe.read_of_64k_octets_or_more");
             }
             if (encode(f).size() > room) { size_t hl = encode(f).size() - f.payload.size(); size_t pl = room > hl ? room - hl : 0; pl -= pl % ((f.options & OPT_WS16) ? 2 : 1); f.payload.resize(pl); if (f.type != T_RREQ) f.bsize = (uint32_t)(pl / ((f.options & OPT_WS16) ? 2 : 1)); }
             Bytes raw;
@@ -693,6 +719,23 @@ struct RegpHarness : Harness {
                 if (!deliver(raw, pin, "raw", false)) return;
                 continue;
             }
+            if (k == "big") {
+                const bool ws16 = o.geti("ws16") != 0;
+                int64_t units = o.geti("units", 65536); if (units < 1) units = 1; if (units > 140000) units = 140000;
+                Frame f; f.type = o.geti("type") == T_RRESP ? T_RRESP : T_WREQ; f.seq = (uint16_t)o.geti("seed"); f.addr = (uint32_t)(o.geti("seed") * 2654435761u);
+                f.options = (ws16 ? OPT_WS16 : 0) | (cf.serial ? (OPT_HDCRC | OPT_PLCRC) : (o.geti("plcrc") ? OPT_PLCRC : 0));
+                f.payload = seeded_payload((uint64_t)o.geti("seed"), (size_t)units * (ws16 ? 2 : 1)); f.bsize = (uint32_t)units;
+                Bytes raw = encode(f);
+                const size_t hl = raw.size() - f.payload.size();
+                if (o.has("flipat")) { size_t at = hl + (size_t)((uint64_t)o.geti("flipat") % f.payload.size()); raw[at] ^= (uint8_t)(1u << (o.geti("flipbit") & 7)); COUNT("fault.single_bit_flip"); c.faults_fired++; if (at - hl >= 131072) COUNT("probe.damage_beyond_64k_words"); }
+                Json pin = Json::obj(); pin["op"] = (long long)oi; pin["kind"] = "big";
+                c.ops_done++; COUNT("probe.frame_of_64k_octets_or_more");
+                const size_t keep = cf.block; cf.block = raw.size() + sizeof(RPFrame) + 64 + (size_t)(o.geti("seed") & 63);
+                bool ok = deliver(raw, pin, "big", false);
+                cf.block = keep;
+                if (!ok) return;
+                continue;
+            }
             if (k != "catalogue") continue;
             cf.serial = true;   // the corruption catalogue is about serial channels
             Frame f = frame_from(o.get("f"));
@@ -740,6 +783,7 @@ struct RegpHarness : Harness {
         Cfg cf = cfg_of(plan);
         Wire a2b, nil, b2a;
         size_t block = 70000;
+        { const Json &ops0 = plan.get("ops"); for (size_t i = 0; i < ops0.size(); ++i) if (ops0.at(i).has("bigpl")) block = 300000; }
         Node A(c, &nil, &a2b, cf.serial, cf.mt, 256, false, false, cf.ko);             // emitter
         Node B(c, &a2b, &b2a, cf.serial, cf.mt, block, cf.slab, cf.so, false);          // peer receiver
         A.reconfigure(cf.confhist); B.reconfigure(cf.confhist >> 2);
@@ -756,6 +800,7 @@ struct RegpHarness : Harness {
             };
             uint32_t addr = (uint32_t)o.geti("addr"); int64_t n64 = o.geti("n"); if (n64 < 0) n64 = 0;
             Bytes pl = unhex(o.gets("pl")); if (pl.size() > 30000) pl.resize(30000);
+            if (o.has("bigpl") && block >= 300000) { int64_t bn = o.get("bigpl").ati(0, 65536); if (bn < 0) bn = 0; if (bn > 200000) bn = 200000; pl = seeded_payload((uint64_t)o.get("bigpl").ati(1, 0), (size_t)bn); if (pl.size() >= 65536) COUNT("probe.payload_of_64k_octets_or_more"); }
             Frame want; want.addr = addr; want.options = cf.serial ? OPT_HDCRC : 0;
             RPFrame rf; memset(&rf, 0, sizeof rf);
             rf.header.type = (RPFrameType)(o.geti("ftype") == T_WREQ ? T_WREQ : T_RREQ); rf.header.sequence = (uint16_t)o.geti("fseq"); rf.header.address = addr;
@@ -845,6 +890,16 @@ struct RegpHarness : Harness {
         for (size_t oi = 0; oi < ops.size() && oi < 12; ++oi) {
             const Json &o = ops.at(oi);
             Seg s; s.raw = unhex(o.gets("raw")); if (s.raw.size() > 70000) s.raw.resize(70000);
+            if (o.has("bigf")) {   // a frame too large to spell out: header fields from the plan, payload regenerated from a seed, optional tail beyond the frame
+                Frame f = frame_from(o.get("bigf")); const Json &bp = o.get("bigpl");
+                int64_t bn = bp.ati(0, 0); if (bn < 0) bn = 0; if (bn > 300000) bn = 300000;
+                const size_t u = (f.options & OPT_WS16) ? 2 : 1; bn -= bn % (int64_t)u;
+                f.payload = seeded_payload((uint64_t)bp.ati(1, 0), (size_t)bn); f.bsize = (uint32_t)((size_t)bn / u);
+                if (f.payload.empty()) f.options &= ~OPT_PLCRC; else if (cf.serial) f.options |= OPT_PLCRC;
+                s.raw = encode(f);
+                int64_t tail = bp.ati(2, 0); if (tail > 0 && tail < 4096) s.raw.resize(s.raw.size() + (size_t)tail, 0x55);
+                if (s.raw.size() >= 65536) COUNT("probe.frame_of_64k_octets_or_more");
+            }
             s.verdict = (int)(o.geti("verdict") % 12); if (s.verdict < 0) s.verdict = 0; s.salt = (uint64_t)o.geti("salt");
             if (o.gets("k") == "wire" && cf.serial) {
                 // wire-level octets: split into what each regp_recv call will see (reference reading of RFC 1055:
